@@ -66,3 +66,17 @@ partial('C16', 'Proved exhaustively (native_decide over all 3.67 million cases, 
         'Lean 4 exhaustive evaluation of the bit-exact model (native_decide) + soundness lemma; correspondence + oracle')
 partial('C19', 'Proved (kernel, generic in the element bit patterns, both formats): transpose is an exact involution, scalar_div/component_mul are element-wise, mul_vec/mul_arr are the same expression. NOT proved: the accuracy clauses; correspondence in f32 and f64 + exact oracle.',
         'Lean 4 structural theorems; correspondence + exact oracle')
+
+LEVELS['C07'] = {'category': 'proof', 'text': 'Kernel-checked, for all geometries and all float bit patterns: Yuv::new establishes InvYuv (chroma planes of the subsampled size, luma dims divisible, every buffer covers its geometry); under InvYuv the decode loop '
+      'returns ok - no unchecked read outside a buffer (decode_safe, yuvToRgb_safe); the encode loop never writes out of bounds: sizes the subsampling does not divide panic before the loop, all others succeed and re-establish InvYuv '
+      '(encode_safe); frames whose chroma planes cannot cover the luma plane, or whose config exceeds their buffer, are rejected (undersized_chroma_rejected, uncovered_plane_rejected); and for EVERY 32-bit pattern the argument of the only '
+      'unchecked float->int conversion (exp2) is finite and within [-128,129] (C18.exp2_total, via the real-number semantics of the softfloat model: lt_iff, sub_val), hence every transfer curve and the gamma<->linear conversions are total '
+      '(C18.curve_total, C13.rgbToLinear_total, C13.linearToRgb_total). Since Yuv values only arise from Yuv::new and the conversions, this covers every call sequence.',
+      'note': NOTE, 'technique': 'Lean 4 invariant proofs (constructor establishes, loops preserve) + real-semantics proof of the clamp range; outcome-class correspondence with hook assertions'}
+partial('C18', 'Proved (kernel): totality - for every bit pattern exp2 feeds to_int_unchecked a finite value in [-128,129] (exp2_total, re-proved against the clamp constants regenerated from the source), hence powf, expf and every transfer curve return a value '
+        '(powf_total, expf_total, curve_total). NOT proved: the accuracy contracts (cbrtf 1 ulp and oddness, powf, expf bounds and ranges); these rest on the bit-exact correspondence and the f64 oracle (all 2^32 arguments in the thorough tier).',
+        'Lean 4 real-semantics proof of totality; correspondence + exhaustive oracle for accuracy')
+partial('C13', 'Proved (kernel), pixel data being arbitrary bit patterns: every emitted code is <= 2^n-1 (codes_valid); RGB->YUV returns a value or a ConversionError, never panic/UB, and the result satisfies the constructor invariant (rgbToYuv_total); '
+        'YUV->RGB on any constructed image is total (yuvToRgb_total); gamma<->linear on any float data, any transfer/primaries, any build is total (rgbToLinear_total, linearToRgb_total, from C18.exp2_total); XYB/HSL stages are total maps. '
+        'NOT proved: finite inputs in [0,1]^3 give finite outputs (oracle only); usize overflow behaviour of overflow-checked builds is not modelled (sizes are Nat) - the checked build is exercised by correspondence and oracle.',
+        'Lean 4 theorems from loop invariants and exp2 totality; correspondence + oracle under optimised and checked builds')
